@@ -386,7 +386,14 @@ def check_C06(ctx):
     report_mismatches(ctx, summ, "a rejected hit-object line has an effect (long random sequences)")
     summ = harness(ctx, ["timing", "c06rel", "--runs", "400" if thorough else "80", "--lines", "60"], name="timing-c06rel", timeout=3600)
     report_mismatches(ctx, summ, "a rejected timing line has an effect (long random sequences)")
-    ctx.assumptions += ["key/value, event and colour sections are covered by the C11 check (Records), which asserts the same stutter property"]
+    # key/value, event and colour records: every two-record sequence of Records.tla, decode(file) == decode(file minus rejected records)
+    sany(ctx, "Records")
+    for sec in RECORD_SECTIONS:
+        f = records_cases(ctx, sec, 3 if thorough and sec != "General" else 2)
+        summ = harness(ctx, ["records", "replay", "--prop", "C06", "--spellings", "1"], cases_file=f, name="records-c06-" + sec, timeout=3600)
+        report_mismatches(ctx, summ, "a rejected [%s] record has an effect" % sec)
+    ctx.assumptions += ["for key/value, event and colour sections the value semantics is C11's; here only the with/without-rejected relation is evaluated "
+                        "on the Records.tla sequences"]
     return finish(ctx, "model_checking",
                   "HitObjectLine models the state one line can pass to the next (last object, scratch control-point list); TLC checks that "
                   "the object list is a fold of the accepted lines only, for all sequences up to the bound over alphabets of valid records and "
